@@ -57,6 +57,22 @@ impl<'w> FnTr<'w> {
                 };
             }
         }
+        // --- std collections (mapping table: see the header of Prelude.lean) ---
+        if segs.len() == 2 && segs[0] == "VecDeque" && last == "new" && args.is_empty() {
+            if !self.use_leafs.contains("VecDeque") { return Err(self.err(e, "`VecDeque` is not imported from std::collections in this file")); }
+            return Ok(Ex::atom("vdNew", RTy::VecDeque(Box::new(RTy::Infer))));
+        }
+        if segs.len() == 2 && segs[0] == "HashMap" && (last == "new" || last == "with_hasher") {
+            if !self.use_leafs.contains("HashMap") { return Err(self.err(e, "`HashMap` is not imported from std::collections in this file")); }
+            let ok = match (last.as_str(), args.len()) {
+                ("new", 0) => true,
+                // the hasher does not change what the map computes; only this one is accepted
+                ("with_hasher", 1) => { use quote::ToTokens; args[0].to_token_stream().to_string().replace(' ', "") == "nohash_hasher::BuildNoHashHasher::default()" }
+                _ => false,
+            };
+            if !ok { return Err(self.err(e, "only `HashMap::new()` / `HashMap::with_hasher(nohash_hasher::BuildNoHashHasher::default())` are in the mapping table")); }
+            return Ok(Ex::atom("hmNew", RTy::HashMap(Box::new(RTy::Infer), Box::new(RTy::Infer))));
+        }
         // --- `T::default()` of a regenerated struct with `#[derive(Default)]`: all fields 0 / false
         if segs.len() == 2 && last == "default" && args.is_empty() {
             if let Some(si) = self.world.structs.get(&segs[0]) {
@@ -112,7 +128,7 @@ impl<'w> FnTr<'w> {
 
     fn opaque_ret<T: syn::spanned::Spanned + quote::ToTokens>(&mut self, node: &T, ret: &str) -> Res<RTy> {
         let ty: syn::Type = syn::parse_str(ret).map_err(|_| self.err(node, "bad opaque result type in the table"))?;
-        match resolve_type(self.world, &ty, self.target.container.ns()) {
+        match resolve_type_s(self.world, &ty, self.target.container.ns(), &self.subst, self.bits) {
             Ok(RTy::Flat(n)) => Err(self.err(node, &format!("opaque call returning the flattened struct `{}`", n))),
             Ok(t) => Ok(t),
             Err(m) => Err(self.err(node, &m)),
@@ -140,6 +156,22 @@ impl<'w> FnTr<'w> {
                     out.push(x.a());
                 }
                 Origin::ParamField(i, f) => {
+                    // an argument that is a VALUE of a regenerated struct: the field is a projection
+                    if let Some(a) = rust_arg(*i) {
+                        if path_ident(a).as_deref() != Some("self") && self.flat_var(a).is_none() {
+                            let x = self.tr_expr(a, None)?;
+                            if let RTy::Struct(sn) = &x.ty {
+                                if f.contains('.') { return Err(self.err(e, "nested field of a struct value")); }
+                                if !x.pure { return Err(self.err(e, "struct-valued argument that can panic (bind it with `let` first)")); }
+                                let fty = self.world.structs[sn].fields.iter().find(|(n, _)| n == f).map(|(_, t)| t.clone()).ok_or_else(|| self.err(e, "unknown field"))?;
+                                let ty = self.struct_field_type(&fty, sn).map_err(|m| self.err(e, &m))?;
+                                if ty != p.ty { return Err(self.err(e, &format!("field `{}` has type {} in the struct value but {} in the callee", f, ty.rust(), p.ty.rust()))); }
+                                out.push(format!("{}.{}", x.a(), lean_ident(f)));
+                                continue;
+                            }
+                            return Err(self.err(e, "argument of struct type must be a plain parameter or a value of a regenerated struct"));
+                        }
+                    }
                     // `self.m(..)` inside a trait / impl: the receiver is our own `self`
                     let (var, idx, sname) = self.flat_arg(e, rust_arg(*i), has_self && *i == 0)?;
                     let x = self.flat_field(e, &var, idx, &sname, f)?;
@@ -190,6 +222,25 @@ impl<'w> FnTr<'w> {
         // --- opaque methods from the table ---
         if let (Some(rn), What::Fn { opaque, .. }) = (&recv_name, &self.target.what) {
             if let Some(o) = opaque.iter().find(|o| o.recv == rn && o.method == method) {
+                if rn != "self" && self.lookup(rn).is_none() {
+                    // a global (`ROOK_MAGICS.get_attacks(sq, occ)`): an opaque FUNCTION of the translated arguments
+                    if !rn.chars().all(|c| c.is_ascii_uppercase() || c == '_' || c.is_ascii_digit()) { return Err(self.err(e, "opaque receiver is neither a parameter nor a global constant")); }
+                    if !(self.use_leafs.contains(rn) || self.use_glob) { return Err(self.err(e, "opaque global is not imported by a `use` in this file")); }
+                    let ret = self.opaque_ret(e, o.ret)?;
+                    let mut xs = vec![];
+                    let mut tys = vec![];
+                    for a in &args {
+                        let x = self.tr_expr(a, None)?;
+                        tys.push(x.ty.lean_atom());
+                        xs.push(x);
+                    }
+                    let name = format!("{}_{}", rn, method);
+                    let fty = RTy::Opaque(format!("{} → {}", tys.join(" → "), ret.lean()));
+                    let n = self.lparam(&name, fty, Origin::ParamMethod(usize::MAX, name.clone()), (usize::MAX - 1, 1, self.lparams.len()))?;
+                    let mut r = Ex::pure(format!("{} {}", n, xs.iter().map(|x| x.a()).collect::<Vec<_>>().join(" ")), ret);
+                    r.pure = xs.iter().all(|x| x.pure);
+                    return Ok(r);
+                }
                 let idx = if rn == "self" { 0 } else {
                     self.lookup(rn).and_then(|v| v.param).ok_or_else(|| self.err(e, "opaque receiver is not a parameter"))?
                 };
@@ -211,6 +262,30 @@ impl<'w> FnTr<'w> {
             }
             return Err(self.err(e, "method of `self` that is neither opaque (table) nor registered for translation"));
         }
+        // --- method of a flattened struct parameter / of a value of a regenerated struct: another translated function ---
+        if let Some((_, _, sname)) = self.flat_var(&mc.receiver) {
+            if let Some(info) = self.world.fns.get(&(Some(sname.clone()), method.clone())).cloned() {
+                return self.call_translated(e, &info, Some(&mc.receiver), &args);
+            }
+            return Err(self.err(e, &format!("method `{}` of `{}` is neither opaque (table) nor registered for translation", method, sname)));
+        }
+        // (only for receivers that are variables / field paths: translating them has no effect on the translator state)
+        fn simple(e: &Expr) -> bool { match strip(e) { Expr::Path(_) => true, Expr::Field(f) => simple(&f.base), _ => false } }
+        if simple(&mc.receiver) && recv_name.as_deref() != Some("self") {
+            if let Ok(r) = self.tr_expr(&mc.receiver, None) {
+                if let RTy::Struct(sname) = &r.ty {
+                    if let Some(info) = self.world.fns.get(&(Some(sname.clone()), method.clone())).cloned() {
+                        return self.call_translated(e, &info, Some(&mc.receiver), &args);
+                    }
+                    return Err(self.err(e, &format!("method `{}` of `{}` is neither opaque (table) nor registered for translation", method, sname)));
+                }
+            }
+        }
+        // --- side-effecting methods of `HashMap` / `VecDeque` fields of `&mut self` ---
+        if crate::stmt::MUTATING_METHODS.contains(&method.as_str()) && crate::stmt::self_field(&mc.receiver).is_some() {
+            let r = self.tr_expr(&mc.receiver, None)?;
+            if matches!(r.ty, RTy::HashMap(_, _) | RTy::VecDeque(_)) { return self.tr_effect_call(e, mc, false); }
+        }
         // --- mapping table on primitive receivers ---
         let recv = self.tr_expr(&mc.receiver, None)?;
         let one_int_arg = |this: &mut Self, t: &RTy| -> Res<Ex> {
@@ -220,6 +295,30 @@ impl<'w> FnTr<'w> {
             Ok(x)
         };
         match (&recv.ty, method.as_str()) {
+            (RTy::U64, "trailing_zeros") | (RTy::U64, "leading_zeros") | (RTy::U64, "count_ones") if args.is_empty() => {
+                let f = match method.as_str() { "trailing_zeros" => "u64Tz", "leading_zeros" => "u64Lz", _ => "u64Popcnt" };
+                let mut r = Ex::pure(format!("{} {}", f, recv.a()), RTy::Int(IntTy::U32));
+                r.pure = recv.pure;
+                Ok(r)
+            }
+            (RTy::U64, "wrapping_mul") | (RTy::U64, "wrapping_add") | (RTy::U64, "wrapping_sub") => {
+                let x = one_int_arg(self, &RTy::U64)?;
+                let op = match method.as_str() { "wrapping_mul" => "*", "wrapping_add" => "+", _ => "-" };
+                let mut r = Ex::pure(format!("{} {} {}", recv.a(), op, x.a()), RTy::U64);
+                r.pure = recv.pure && x.pure;
+                Ok(r)
+            }
+            (RTy::U64, "overflowing_mul") => {
+                let x = one_int_arg(self, &RTy::U64)?;
+                let mut r = Ex::atom(format!("(u64OverflowingMul {} {})", recv.a(), x.a()), RTy::Tuple(vec![RTy::U64, RTy::Bool]));
+                r.pure = recv.pure && x.pure;
+                Ok(r)
+            }
+            // `get_unchecked` is translated as a CHECKED access: `none` = undefined behaviour
+            (RTy::VecList(el), "get_unchecked") => {
+                let x = one_int_arg(self, &RTy::Int(IntTy::Usize))?;
+                Ok(Ex::monadic(format!("vecIdx {} {}", recv.a(), x.a()), (**el).clone()))
+            }
             (RTy::Int(t), "saturating_sub") | (RTy::Int(t), "saturating_add") | (RTy::Int(t), "wrapping_sub") | (RTy::Int(t), "wrapping_add")
             | (RTy::Int(t), "max") | (RTy::Int(t), "min") => {
                 let x = one_int_arg(self, &recv.ty)?;
@@ -265,6 +364,25 @@ impl<'w> FnTr<'w> {
                 Ok(r)
             }
             (RTy::Opt(_), "copied") | (RTy::Opt(_), "cloned") if args.is_empty() => Ok(recv),
+            (RTy::Opt(_), "is_none") | (RTy::Opt(_), "is_some") if args.is_empty() => {
+                let mut r = Ex::pure(format!("{}.{}", recv.a(), if method == "is_none" { "isNone" } else { "isSome" }), RTy::Bool);
+                r.pure = recv.pure;
+                r.atomic = true;
+                Ok(r)
+            }
+            // `None.unwrap()` panics
+            (RTy::Opt(t), "unwrap") if args.is_empty() => Ok(Ex::monadic(recv.a(), (**t).clone())),
+            (RTy::HashMap(k, v), "get") | (RTy::HashMap(k, v), "contains_key") => {
+                let x = one_int_arg(self, k)?;
+                let mut r = if method == "get" { Ex::pure(format!("hmGet {} {}", recv.a(), x.a()), RTy::Opt(v.clone())) } else { Ex::pure(format!("(hmGet {} {}).isSome", recv.a(), x.a()), RTy::Bool) };
+                r.pure = recv.pure && x.pure;
+                Ok(r)
+            }
+            (RTy::HashMap(_, _), "len") | (RTy::VecDeque(_), "len") if args.is_empty() => {
+                let mut r = Ex::pure(format!("{} {}", if matches!(recv.ty, RTy::HashMap(_, _)) { "hmLen" } else { "vdLen" }, recv.a()), RTy::Int(IntTy::Usize));
+                r.pure = recv.pure;
+                Ok(r)
+            }
             (RTy::Opt(t), "filter") => {
                 let t = (**t).clone();
                 if args.len() != 1 { return Err(self.err(e, "wrong number of arguments")); }
